@@ -2731,7 +2731,7 @@ func (r *OPTResource) GoString() string {
 
 func unpackOPTResource(msg []byte, off int, length uint16) (OPTResource, error) {
 	var opts []Option
-	for oldOff := off; off < oldOff+int(length); {
+	for end := off + int(length); off < end; {
 		var err error
 		var o Option
 		o.Code, off, err = unpackUint16(msg, off)
@@ -2742,6 +2742,10 @@ func unpackOPTResource(msg []byte, off int, length uint16) (OPTResource, error) 
 		l, off, err = unpackUint16(msg, off)
 		if err != nil {
 			return OPTResource{}, &nestedError{"Data", err}
+		}
+		// The option must lie within the resource body.
+		if off+int(l) > end {
+			return OPTResource{}, &nestedError{"Data", errResourceLen}
 		}
 		o.Data = make([]byte, l)
 		if copy(o.Data, msg[off:]) != int(l) {
